@@ -91,6 +91,29 @@ fn measure(b: &HnswBackend, case: &Case, data: &[Vec<f32>], queries: &[Vec<f32>]
         sorted.sort_by(|a, b| a.partial_cmp(b).unwrap());
         let kth = sorted[K.min(sorted.len()) - 1];
         let r1 = b.knn_search(q, K).map_err(|e| Failure::new("valid_search_rejected", format!("{:#}", e)))?;
+        // every 4th query: between the two identical searches, the same thread runs an expensive
+        // search that a helper thread cancels after a swept delay (as the timed tiered search
+        // does on time-out); its own result is ignored, the collection is unchanged
+        if qi % 4 == 1 {
+            let flag = std::sync::atomic::AtomicBool::new(false);
+            let go = std::sync::atomic::AtomicBool::new(false);
+            let delay_us = [0u64, 2, 5, 10, 20, 40, 80, 160, 320, 640][(qi / 4) % 10];
+            let other = &queries[(qi + 7) % queries.len()];
+            std::thread::scope(|sc| {
+                sc.spawn(|| {
+                    while !go.load(std::sync::atomic::Ordering::Acquire) {
+                        std::hint::spin_loop();
+                    }
+                    let t0 = std::time::Instant::now();
+                    while (t0.elapsed().as_micros() as u64) < delay_us {
+                        std::hint::spin_loop();
+                    }
+                    flag.store(true, std::sync::atomic::Ordering::Release);
+                });
+                go.store(true, std::sync::atomic::Ordering::Release);
+                let _ = b.knn_search_with_ef_cancel(other, K, Some(4000), Some(&flag));
+            });
+        }
         let r2 = b.knn_search(q, K).map_err(|e| Failure::new("valid_search_rejected", format!("{:#}", e)))?;
         let hits = r1.iter().filter(|r| (r.doc_id as usize) < d.len() && d[r.doc_id as usize] <= kth + 1e-9 * (1.0 + kth.abs())).count();
         total += hits as f64 / K.min(data.len()) as f64;
